@@ -668,6 +668,25 @@ func c10R4(c *Ctx) {
 		}
 		c.R.Check(cnt >= 2, r, "v1 ProcessorNode.Run: a record-count mismatch is fatal", c.Pos(fn.Pos()), "FatalError returns", "the record-count mismatch no longer returns cerrors.FatalError", true)
 	}
+	// v2 fan-out: the pass's error is the join of ALL branch errors (conc's ErrorPool default); returning only the
+	// first one lets a fast transient failure hide a fatal one from the classification
+	{
+		var firstErr []kit.Ref
+		for _, t := range []string{"ErrorPool", "ContextPool", "ResultErrorPool", "ResultContextPool"} {
+			if f := c.W.ExtMethod("github.com/sourcegraph/conc/pool", t, "WithFirstError"); f != nil {
+				for _, ref := range c.W.Refs(Set(f)) {
+					if strings.HasPrefix(ref.Pkg, pFunnel) || strings.HasPrefix(ref.Pkg, pLife2) {
+						firstErr = append(firstErr, ref)
+					}
+				}
+			}
+		}
+		pos := ""
+		if len(firstErr) > 0 {
+			pos = c.Pos(firstErr[0].Pos)
+		}
+		c.R.Check(len(firstErr) == 0, r, "v2 fan-out: every branch error reaches the classification", pos, "pool.WithErrors() joins all errors", "the v2 engine uses pool.WithFirstError: a fan-out pass returns only the branch error that happened first, so a fatal cause in a slower branch (DLQ threshold, DLQ write failure, unabsorbed processor error) is masked by a transient one and the pipeline is restarted instead of degraded", false)
+	}
 	// v1: a failed DLQ write is fatal (F11a): every return behind the failure edge of Handler.Write is FatalError(...)
 	if fn := c.SSA(r, pStream, "(*DLQHandlerNode).Nack"); fn != nil {
 		write := c.Fam(c.Fn(r, pStream, "DLQHandler.Write"))
